@@ -142,6 +142,13 @@ def run(prop, tier, seed, workdir):
                     again.append("%d n %d %d %d %s" % (cid, e["mode"], len(res_s) + 6, len(res_s), " ".join(map(str, res_s))))
     outs.append(runchunk(again))
     events = ['{"slack":1,' + ln[1:] for o in outs for ln in o]
+    from . import testtrace
+    corp = testtrace.corpus("norm", workdir)          # the wcsnorm_s calls of the repository's own tests, same judge
+    for ln in corp:
+        e = json.loads(ln)
+        e["id"] += 50000000
+        meta[e["id"]] = ("n", e["mode"], e["dmax"], e["s"])
+        events.append(json.dumps(e, separators=(",", ":")))
     n, bad, st = tlc.validate("TraceNorm", os.path.join(tlc.SPEC, "TraceNorm.cfg"), events, workdir, jvms=16, heap="3g")
     for bd in bad:
         m = meta[bd["i"]]
@@ -171,7 +178,11 @@ def run(prop, tier, seed, workdir):
 def replay(rp, workdir):
     res = Result("norm-replay")
     b = build.ensure(["slack"], [("hnorm", "slack")])
-    p = subprocess.run([b[("hnorm", "slack")]], input=rp["line"] + "\n", stdout=subprocess.PIPE, text=True, timeout=60)
+    line = rp.get("line")
+    if not line:        # an event recorded from the repository's tests: the same call, rebuilt from its description
+        m = rp["meta"]
+        line = "1 n %d %d %d %s" % (m[1], m[2], len(m[3]), " ".join(map(str, m[3])))
+    p = subprocess.run([b[("hnorm", "slack")]], input=line + "\n", stdout=subprocess.PIPE, text=True, timeout=60)
     evs = ['{"slack":1,' + ln[1:] for ln in p.stdout.splitlines() if ln.startswith("{")]
     print("\n".join(evs))
     n, bad, st = tlc.validate("TraceNorm", os.path.join(tlc.SPEC, "TraceNorm.cfg"), evs, workdir, jvms=1)
